@@ -248,6 +248,9 @@ type caseRun struct {
 	env   *c0203.Env
 	book  taskBook
 	runAt int // run events already reported
+
+	prevView  [][2]int // task view / environment state of the previous observation
+	prevState int
 }
 
 func (c *caseRun) taskId(i int) string {
@@ -368,7 +371,134 @@ func (c *caseRun) settleFault(f Fault, vs []int) {
 	time.Sleep(8 * time.Millisecond)
 }
 
-func (c *caseRun) observe(so *StepObs) {
+// settleObs is passed before every sampling point: everything observed is written by the core
+// asynchronously (go m.updateTaskState / updateTaskStatus per reply, callbacks of the transition
+// still running after the state changed, the watcher's STOP command after its GO_ERROR).  It waits
+// (a) until the role state of every task in `want` (derived from the INPUT: scripted outcome of an
+// acknowledged command, victims of a fault - never from the model) is reached, since the core gets
+// there monotonically, (b) until no transition is in progress (unless the request hangs), (c) until
+// the whole sampled view - roster, role view, published states, commanded tasks, run events,
+// run_end variable, environment state - has been the same for 8 polls in a row.  Each part is
+// bounded (4 s); after that whatever is there is sampled, so a real violation is still reported.
+func (c *caseRun) settleObs(want map[int]int, hang bool) {
+	end := time.Now().Add(4 * time.Second)
+	if len(want) > 0 {
+		for time.Now().Before(end) {
+			v := c.env.RoleView()
+			ok := true
+			for i, st := range want {
+				if i >= len(v) || v[i][0] != st {
+					ok = false
+				}
+			}
+			if ok {
+				break
+			}
+			time.Sleep(3 * time.Millisecond)
+		}
+	}
+	if !hang && c.env.E != nil {
+		for time.Now().Before(end) && c.env.E.CurrentTransition() != "" {
+			time.Sleep(3 * time.Millisecond)
+		}
+	}
+	snap := func() string {
+		var b strings.Builder
+		mine := map[string]bool{}
+		for i := range c.in.Tasks {
+			mine[pathFor(c.in)(c.name, i)] = true
+		}
+		ros := c.w.Sim.Taskman.VerifRoster()
+		sort.Slice(ros, func(a, b int) bool { return ros[a].RolePath < ros[b].RolePath })
+		for _, t := range ros {
+			if mine[t.RolePath] {
+				fmt.Fprintf(&b, "%s=%s/%s;", t.RolePath, t.State, t.Status)
+			}
+		}
+		fmt.Fprint(&b, c.env.RoleView(), c.env.Reported(), c.env.Commanded(""), len(c.env.RunEvents()), c.env.RunEndVar(), c.env.State())
+		if !hang && c.env.E != nil {
+			fmt.Fprint(&b, c.env.E.CurrentTransition())
+		}
+		return b.String()
+	}
+	end = time.Now().Add(4 * time.Second)
+	last, same := snap(), 0
+	for time.Now().Before(end) && same < 8 {
+		time.Sleep(4 * time.Millisecond)
+		if cur := snap(); cur != last {
+			last, same = cur, 0
+		} else {
+			same++
+		}
+	}
+}
+
+// wantAfterCmd: role states the tasks reach after a request that returned `got`: the commanded
+// tasks (role ACTIVE in the previous view, not hit by a fault inside the request) per their
+// scripted outcome when the request succeeded
+func (c *caseRun) wantAfterCmd(ev string, oc []string, got string, skip []int) map[int]int {
+	want := map[int]int{}
+	dstEnv := map[string]string{"CONFIGURE": "CONFIGURED", "START": "RUNNING", "STOP": "CONFIGURED", "RESET": "DEPLOYED"}[ev]
+	src := map[string]int{"CONFIGURE": 1, "START": 2, "STOP": 3, "RESET": 2}[ev]
+	dst := map[string]int{"CONFIGURE": 2, "START": 3, "STOP": 2, "RESET": 1}[ev]
+	if got != dstEnv || c0203.EnvStateCode[dstEnv] == c.prevState {
+		return want
+	}
+	for i, v := range c.prevView {
+		if v[1] != 3 || containsInt(skip, i) {
+			continue
+		}
+		o := "ack"
+		if i < len(oc) {
+			o = oc[i]
+		}
+		switch o {
+		case "ack", "":
+			want[i] = dst
+		case "errsrc":
+			want[i] = src
+		case "errerr":
+			want[i] = 4
+		}
+	}
+	return want
+}
+
+// wantAfterError: the watcher's STOP after it took a RUNNING environment to ERROR: tasks still
+// RUNNING and ACTIVE that are scripted to answer
+func (c *caseRun) wantAfterError(want map[int]int, oc []string) map[int]int {
+	if c.env.State() != "ERROR" {
+		return want
+	}
+	for i, v := range c.env.RoleView() {
+		if _, ok := want[i]; ok || v[0] != 3 || v[1] != 3 {
+			continue
+		}
+		o := "ack"
+		if i < len(oc) {
+			o = oc[i]
+		}
+		switch o {
+		case "ack", "":
+			want[i] = 2
+		case "errerr":
+			want[i] = 4
+		}
+	}
+	return want
+}
+
+func containsInt(xs []int, x int) bool {
+	for _, y := range xs {
+		if x == y {
+			return true
+		}
+	}
+	return false
+}
+
+func (c *caseRun) observe(so *StepObs, want map[int]int) {
+	c.settleObs(want, so.Hang)
 	so.State = c0203.EnvStateCode[c.env.State()]
 	so.Reported = c.env.Reported()
 	so.Cmded = c.env.Commanded("")
@@ -384,6 +514,7 @@ func (c *caseRun) observe(so *StepObs) {
 	}
 	c.runAt = len(evs)
 	so.Tasks = c.env.RoleView()
+	c.prevView, c.prevState = so.Tasks, so.State
 }
 
 // waitAfterFault: more than the watcher's 500 ms; when a critical task was hit, until ERROR (bounded),
@@ -391,7 +522,7 @@ func (c *caseRun) observe(so *StepObs) {
 func (c *caseRun) waitAfterFault(anyCrit bool) {
 	t0 := time.Now()
 	if anyCrit {
-		waitFor(1600*time.Millisecond, func() bool { return c.env.State() == "ERROR" })
+		waitFor(4*time.Second, func() bool { return c.env.State() == "ERROR" })
 	}
 	if c.env.State() != "ERROR" {
 		if d := 680*time.Millisecond - time.Since(t0); d > 0 {
@@ -475,10 +606,16 @@ func runCase(w *c0203.World, idx int, in Input) (obs []StepObs, wedged bool) {
 	}
 	if in.Early != nil {
 		c.waitAfterFault(c.anyCrit(earlyVs))
-	} else {
-		time.Sleep(3 * time.Millisecond) // the watcher goroutine subscribes
 	}
-	c.observe(&first)
+	// every task acknowledged the CONFIGURE of the creation; the victims of an early fault are in ERROR
+	want0 := map[int]int{}
+	for i := range in.Tasks {
+		want0[i] = 2
+	}
+	for _, i := range earlyVs {
+		want0[i] = 4
+	}
+	c.observe(&first, want0)
 	obs = append(obs, first)
 	if first.State == 5 {
 		env.Finish(true)
@@ -486,6 +623,7 @@ func runCase(w *c0203.World, idx int, in Input) (obs []StepObs, wedged bool) {
 	}
 	for _, op := range in.Ops {
 		var so StepObs
+		want := map[int]int{}
 		env.Mark()
 		env.SetOutcomes(c0203.ParseOutcomes(op.Oc, n))
 		switch op.Kind {
@@ -495,13 +633,21 @@ func runCase(w *c0203.World, idx int, in Input) (obs []StepObs, wedged bool) {
 			if r.Err != nil {
 				so.ErrText = r.Err.Error()
 			}
-			c.quiesce() // the state updates of the replies
+			want = c.wantAfterCmd(op.Ev, op.Oc, r.State, nil)
 		case "fault":
 			c.quiesce()
 			vs := c.inject(*op.F)
 			so.Victims, so.IsFault = vs, true
 			c.settleFault(*op.F, vs)
 			c.waitAfterFault(c.anyCrit(vs) || op.F.Kind == "internal")
+			if op.F.Kind != "internal" {
+				for _, i := range vs {
+					want[i] = 4
+				}
+			} else if !in.Tasks[op.F.V].Crit {
+				want[op.F.V] = 4
+			}
+			want = c.wantAfterError(want, op.Oc)
 		case "race":
 			f := *op.F
 			c.quiesce()
@@ -532,6 +678,7 @@ func runCase(w *c0203.World, idx int, in Input) (obs []StepObs, wedged bool) {
 			gate.open()
 			time.Sleep(15 * time.Millisecond)
 			c.waitAfterFault(c.anyCrit(vs))
+			want = c.wantAfterError(want, op.Oc)
 		case "cmdfault":
 			var vs []int
 			injected := false
@@ -557,11 +704,24 @@ func runCase(w *c0203.World, idx int, in Input) (obs []StepObs, wedged bool) {
 			so.Victims, so.IsFault = vs, injected
 			if injected {
 				c.waitAfterFault(c.anyCrit(vs) || f.Kind == "internal")
+				skip := vs
+				if f.Kind == "internal" {
+					skip = nil
+				}
+				if c.env.State() != "ERROR" {
+					want = c.wantAfterCmd(op.Ev, op.Oc, r.State, skip)
+				}
+				if f.Kind != "internal" {
+					for _, i := range vs {
+						want[i] = 4
+					}
+				}
+				want = c.wantAfterError(want, op.Oc)
 			} else {
-				c.quiesce()
+				want = c.wantAfterCmd(op.Ev, op.Oc, r.State, nil)
 			}
 		}
-		c.observe(&so)
+		c.observe(&so, want)
 		obs = append(obs, so)
 		if so.Hang || so.State == 5 {
 			break
